@@ -164,6 +164,7 @@ theorem C09.lipschitz_sound (μ : E → E → E) (cv : Builtin ℝ → E → ℝ
       exact (C09.lip_sub_const q (ih La hLa)).mono (by linarith)
   | infconv f g _ _ => simp [Fn.lip, Lip.eval] at h
   | menv f P σ _ => simp [Fn.lip, Lip.eval] at h
+  | dconj f _ => simp [Fn.lip, Lip.eval] at h
 
 /-- Non-vacuity: on `E = ℝ`, `L2NormSquared * 3` gets `grad_lipschitz = 18` and the theorem
 applies to it. -/
@@ -235,6 +236,7 @@ def WF (o : VecOps E ℝ) : Fn E ℝ → E → Prop
   | .breg f _ _, x => WF o f x
   | .infconv _ _, _ => False
   | .menv _ _ _, _ => False
+  | .dconj _, _ => False
 
 end OdlModel.C09
 open OdlModel.C09
@@ -375,6 +377,7 @@ theorem C09.grad_sound (μ : E → E → E) (cv : Builtin ℝ → E → ℝ) (cd
       ring
   | infconv f g _ _ => exact h.elim
   | menv f P σ _ => exact h.elim
+  | dconj f _ => exact h.elim
 
 /-- `f.derivative(x)(d)` (coded as `d.inner(f.gradient(x))`) is the Fréchet derivative of the
 values applied to `d`. -/
